@@ -86,8 +86,9 @@ Definition boundary_ancestors (path : str) : list str :=
   | c0 :: rest => rev (bprefixes [c0] rest)
   end.
 
-(* applyChangeToConfig(values, path, value) (repaired, 3126412): values[path] = value; every ancestor at a path
-   element boundary that is marked deleted in the map is removed from it; the outermost one is returned *)
+(* applyChangeToConfig(values, path, value) (repaired, 3126412 and 13d170a): values[path] = value; for a live value
+   every ancestor at a path element boundary that is marked deleted in the map is removed from it and the outermost
+   one is returned; a deleted value leaves its ancestors alone *)
 Definition drop_deleted_ancestor (acc : cfgmap * option (str * path_value)) (parent : str)
   : cfgmap * option (str * path_value) :=
   match map_get parent (fst acc) with
@@ -97,7 +98,8 @@ Definition drop_deleted_ancestor (acc : cfgmap * option (str * path_value)) (par
 
 Definition apply_change_to_config (values : cfgmap) (path : str) (value : path_value)
   : cfgmap * option (str * path_value) :=
-  fold_left drop_deleted_ancestor (boundary_ancestors path) (map_set path value values, None).
+  if pv_deleted value then (map_set path value values, None)
+  else fold_left drop_deleted_ancestor (boundary_ancestors path) (map_set path value values, None).
 
 (* the in-place mutation AddDeleteChildren performs on a stored object *)
 Definition mark_deleted (index : N) (v : path_value) : path_value :=
